@@ -106,3 +106,35 @@ class Report:
             json.dump(ev, fh, indent=1, default=str)
         log(f"[{self.prop}] tier={self.tier} wall={ev['wall_s']}s violations={violations} known={len(reproduced)}")
         return 1 if violations else 0
+
+
+def generic_replay(prop, path):
+    """bin/check <ID> --replay <file>: <file> is a replay file written by an earlier run (out/replay/<ID>/<hash>.json: signature +
+    the failing cases with their inputs).  The failure is re-judged by the SAME machinery against the current /repo tree: the check is
+    re-run (quick tier first, thorough if the signature does not come back) and the recorded signature is looked up among the failures.
+    Exit 1 (with the VIOLATION line) if it still occurs, 0 if it no longer does."""
+    import importlib
+    try:
+        rec = json.load(open(path))
+    except Exception as ex:
+        raise ToolError(f"cannot read replay file {path}: {ex}")
+    sig = rec.get("signature")
+    if rec.get("property") not in (None, prop): raise ToolError(f"{path} belongs to {rec.get('property')}, not {prop}")
+    log(f"[replay] {prop} signature {sig}; recorded case: {str(rec.get('cases', [{}])[0].get('what'))[:300]}")
+    mod = importlib.import_module("areas." + prop.lower())
+    seed = int(os.environ.get("VERIF_SEED", "1") or 1)
+    for tier in ("quick", "thorough"):
+        rep = Report(prop, tier, seed)
+        mod.run(rep, tier, seed)
+        hits = [f for f in rep.failures if f.sig == sig]
+        if hits:
+            rdir = os.path.join(OUT, "replay", prop); os.makedirs(rdir, exist_ok=True)
+            out = os.path.join(rdir, "replayed_" + hashlib.sha1(sig.encode()).hexdigest()[:12] + ".json")
+            with open(out, "w") as fh:
+                json.dump({"property": prop, "signature": sig, "count": len(hits), "tier": tier,
+                           "cases": [{"what": f.what, "replay": f.replay} for f in hits[:20]]}, fh, indent=1, default=str)
+            log(f"VIOLATION property={prop} replay={out}")
+            log(f"   signature={sig} reproduced on the current tree ({len(hits)} case(s), {tier} tier): {hits[0].what[:300]}")
+            return 1
+    log(f"[replay] signature {sig} does not occur on the current tree (quick and thorough tiers)")
+    return 0
